@@ -447,7 +447,11 @@ where
     }
 
     fn get_data_or_decode(&self, id: PlainRef, range: Range<usize>, filters: &[StreamFilter]) -> Result<Arc<[u8]>> {
-        self.storage.stream_cache.get_or_compute(id, || self.storage.decode(id, range, filters).map_err(Arc::new))
+        // The key is the object number together with the place of the data in the file: the recovery scan hands out
+        // superseded versions of objects (same number as the current version, other data), and a damaged table may send
+        // a number to an object that another number leads to as well.
+        let key = PlainRef { id: id.id, gen: range.start as GenNr };
+        self.storage.stream_cache.get_or_compute(key, || self.storage.decode(id, range, filters).map_err(Arc::new))
         .map_err(|e| e.into())
     }
 }
